@@ -83,6 +83,10 @@ def _case(draw):
         "handler": draw(st.sampled_from(["umn", "umn", "dir"])),
         "form": draw(st.sampled_from(FORMS)),
         "depth": draw(st.sampled_from([0, 1, 1, 2])),
+        # the full handler list (ZIP, scripts, PYG, TAL, URL type rewriter ...), and directories at or below a top-level
+        # directory with a one-character name (where the type rewriter reads '/1/foo' as type 1 + '/foo')
+        "fulllist": draw(st.booleans()),
+        "top": draw(st.sampled_from(["sub0", "sub0", "1", "0", "h"])),
     }
 
 
@@ -95,7 +99,7 @@ def examples(tier):
 
 
 def _spec(case, with_faults):
-    prefix = "/".join(["sub%d" % i for i in range(case["depth"])])
+    prefix = "/".join([(case.get("top", "sub0") if i == 0 else "sub%d" % i) for i in range(case["depth"])])
     pre = prefix + "/" if prefix else ""
     spec = []
     if prefix:
@@ -178,9 +182,9 @@ class _Shims:
         os.stat, os.listdir = self.o_stat, self.o_listdir
 
 
-def _config(root, handler):
+def _config(root, handler, full=False):
     over = {"handlers.dir.DirHandler::cachetime": "0"}
-    cfg = drive.make_config(root, "shipped", **over)
+    cfg = drive.make_config(root, "full" if full else "shipped", **over)
     if handler == "dir":
         h = cfg.get("handlers.HandlerMultiplexer", "handlers").replace("UMN.UMNDirHandler", "dir.DirHandler")
         cfg.set("handlers.HandlerMultiplexer", "handlers", h)
@@ -191,7 +195,7 @@ def _listing(case, with_faults):
     spec, dirsel, shim_stat, phantoms = _spec(case, with_faults)
     d, root = world.build(spec)
     try:
-        cfg = _config(root, case["handler"])
+        cfg = _config(root, case["handler"], case.get("fulllist", False))
         form = case["form"]
         req = clients.encode(form, world.b(dirsel))
         if with_faults:
